@@ -588,6 +588,7 @@ func Run(r *ev.Run) {
 	expr := &alphabet{name: "expression", atoms: exprAtoms}
 	dirv := &alphabet{name: "directive", atoms: directiveAtoms}
 	call := &alphabet{name: "call", atoms: callAtoms}
+	jkey := &alphabet{name: "json-key", atoms: jsonKeyAtoms}
 
 	type job struct {
 		a       *alphabet
@@ -616,6 +617,7 @@ func Run(r *ev.Run) {
 			{dirv, 4, heredoc, eLexConfig | eConfig},
 			{call, 6, identity, eLexConfig | eExpr | eTraversal},
 			{call, 5, attr, eConfig},
+			{jkey, 6, identity, eJSON | eJSONExpr},
 		}
 	} else {
 		jobs = []job{
@@ -633,6 +635,7 @@ func Run(r *ev.Run) {
 			{dirv, 3, heredoc, eLexConfig | eConfig},
 			{call, 5, identity, eLexConfig | eExpr | eTraversal},
 			{call, 4, attr, eConfig},
+			{jkey, 5, identity, eJSON | eJSONExpr},
 		}
 	}
 
